@@ -12,7 +12,9 @@ ID = 'C16'
 LEVEL = 'exploration'
 RULE = ('real directory trees under a per-case temporary directory (depth<=4, '
         '0-12 files, names with 0/1/2 extensions, empty directories, '
-        'directory names with dots), two alternative roots; 1-3 rules with '
+        'directory names with dots; in every 4th case names containing glob '
+        'magic characters [ ] ? * incl. the root directory itself, in every '
+        '16th names beginning with "."), two alternative roots; 1-3 rules with '
         'relative paths (root itself, nested and overlapping rule '
         'directories, missing paths, a path that is a regular file), '
         'extension filters (none, one, several, none matching), extra '
@@ -37,8 +39,9 @@ ANCHORS = [
 MIN_NONTRIVIAL = {'quick': 150, 'thorough': 3000}
 MIN_STATS = {'files_checked': 1000, 'populations': 300}
 ASSUMPTIONS = [
-    'not generated: names beginning with "." (glob hidden-file convention); a '
-    'trimmed file key colliding with a sibling directory name',
+    'not generated: a trimmed file key colliding with a sibling directory '
+    'name; names beginning with "." only in every 16th random case (known '
+    'finding hidden-entries-skipped)',
     "don't-care: whether empty or filtered-out directories become sub-maps; "
     'which of two files of one rule that collide after trimming ends up '
     'visible (the other must be beneath when nesting); key "." for a rule on '
@@ -50,7 +53,17 @@ STEMS = ['f', 'g', 'pic', 'readme', 'n.m']
 EXTS = ['', '.txt', '.png', '.gz']
 
 
-def gen_tree(rng):
+MAGIC_DIRS = ['lvl[1]', 'q?', 'st*r', '[', 'a[b-c]d']
+MAGIC_STEMS = ['f[0]', 'wh?t', '*']
+HIDDEN_DIRS = ['.cache', '.d']
+HIDDEN_STEMS = ['.hidden', '.config']
+
+
+def gen_tree(rng, magic=False, hidden=False):
+    DIRS = globals()['DIRS'] + (MAGIC_DIRS if magic else []) \
+        + (HIDDEN_DIRS if hidden else [])
+    STEMS = globals()['STEMS'] + (MAGIC_STEMS if magic else []) \
+        + (HIDDEN_STEMS if hidden else [])
     dirs = set()
     for _ in range(rng.randint(0, 5)):
         depth = rng.randint(1, 3)
@@ -66,10 +79,10 @@ def gen_tree(rng):
     return {'dirs': sorted(dirs), 'files': sorted(files)}
 
 
-def gen_one(rng, tier):
-    roots = [gen_tree(rng)]
+def gen_one(rng, tier, magic=False, hidden=False):
+    roots = [gen_tree(rng, magic, hidden)]
     if rng.random() < 0.4:
-        roots.append(gen_tree(rng))
+        roots.append(gen_tree(rng, magic, hidden))
     all_dirs = sorted({d for r in roots for d in r['dirs']})
     all_files = sorted({f for r in roots for f in r['files']})
     rules = []
@@ -108,7 +121,7 @@ def gen_one(rng, tier):
                       'root_by_arg': rng.random() < 0.5})
     return {'roots': roots, 'rules': rules,
             'ctor': {'nest': rng.random() < 0.6, 'trim': rng.random() < 0.5},
-            'calls': calls}
+            'calls': calls, 'magic': magic, 'hidden': hidden}
 
 
 def gen_cases(tier, seed):
@@ -121,7 +134,12 @@ def gen_cases(tier, seed):
         yield case
     n = 2000 if tier == 'quick' else 16 * 5000
     for i in range(n):
-        case = gen_one(random.Random(f'C16/{seed}/{tier}/{i}'), tier)
+        case = gen_one(random.Random(f'C16/{seed}/{tier}/{i}'), tier,
+                       # names containing glob magic characters ([ ] ? *),
+                       # also in the name of the root directory itself
+                       magic=i % 4 == 1,
+                       # names beginning with "." (hidden by convention)
+                       hidden=i % 16 == 3)
         # the factory may build handles that are falsy objects
         case['falsy_handles'] = i % 5 == 0
         yield case
@@ -175,7 +193,9 @@ def run_case(case):
 def _run(case, desper, res, tmp):
     roots = []
     for i, tree in enumerate(case['roots']):
-        root = os.path.join(tmp, f'root{i}')
+        root = os.path.join(tmp, f'ro[o]t{i}' if case.get('magic')
+                            and len(case['roots'][0]['files']) % 2 else
+                            f'root{i}')
         os.makedirs(root)
         for d in tree['dirs']:
             os.makedirs(os.path.join(root, d), exist_ok=True)
@@ -193,6 +213,9 @@ def _run(case, desper, res, tmp):
         def load(self):
             return self.rec
 
+    for flag in ('magic', 'hidden'):
+        if case.get(flag):
+            res.tags['special_names'].add(flag)
     if case.get('falsy_handles'):
         RecHandle.__len__ = lambda self: 0
         res.tags['falsy_handles'].add(True)
@@ -379,6 +402,10 @@ def shrink(case):
 
 
 def classify(case, div):
+    key = str(div.get('key') or '')
+    if div['kind'] == 'file-not-reachable' and any(
+            part.startswith('.') for part in key.split('/')):
+        return 'hidden-entries-skipped'
     if div['kind'] == 'population-outcome' and 'NameError' in str(
             div.get('observed')):
         return 'not-a-directory-nameerror'
